@@ -23,7 +23,7 @@ var c08Owner = map[string]string{
 	"dec": "C01", "cdec": "C01", "ccdec": "C01", "cb": "C01",
 	"wifdec": "C06", "xkey": "C05",
 	"b58dec": "C07", "chkdec": "C07", "bechdec": "C07", "bcb": "C07",
-	"hist": "C09", "histobj": "C09", "txm": "C09", "blk": "C09", "ex": "C09",
+	"hist": "C09", "histobj": "C09", "txm": "C09", "blk": "C09", "ex": "C09", "exlim": "C09",
 	"gcsraw": "C13",
 }
 
